@@ -1459,6 +1459,66 @@ class Runner
                 break;
             default: break;
         }
+        // backstop for every property, like a sanitizer report: events of the checking allocator (double free, unknown
+        // pointer, wrong size or arena) and of the object registry (construction on a live object, use or destruction
+        // of a dead one, block freed with live objects) are failures whichever property is being decided
+        if (!bad() && prop != 17)
+        {
+            if (!ledger().errors.empty())
+                fail(ledger().errors[0].code, ledger().errors[0].msg);
+            else if (!registry().errors.empty())
+                fail(registry().errors[0].code, registry().errors[0].msg);
+        }
+    }
+
+    // C11/C12: objects with a user-provided assignment operator (Stamped) whose value changes while no object is
+    // constructed or relocated - reference assignment, swap, iter_swap, rotate/reverse/swap_ranges, element<->reference
+    // assignment - must have been assigned through that operator: their stamp is newer than the clock before the op
+    struct StampSnap
+    {
+        const Stamped* p;
+        int32_t value;
+        uint32_t stamp;
+    };
+    std::vector<StampSnap> stamp_snaps;
+    uint32_t stamp_t0{};
+    static bool assigns_through_references(uint8_t k)
+    {
+        return k == K_REFASSIGN || k == K_REFSWAP || k == K_ITERSWAP || k == K_ROTATE || k == K_REVERSE || k == K_SWAPRANGES ||
+               k == K_ELEM_TO_REF || k == K_WRITE;
+    }
+    void take_stamp_snaps()
+    {
+        stamp_snaps.clear();
+        stamp_t0 = g_stamp_clock;
+        if constexpr (LI::ANY_STAMPED)
+            for (int s = 0; s < NSLOT; ++s)
+            {
+                if (!usable(s)) continue;
+                Vec& v = *vs[s].v;
+                for (std::size_t i = 0; i < v.size(); ++i)
+                {
+                    auto ex = extents(v[i]);
+                    for (std::size_t k = 0; k < N; ++k)
+                        if (LI::stamped[k])
+                            for (std::size_t j = 0; j < ex[k].count; ++j)
+                            {
+                                auto* p = reinterpret_cast<const Stamped*>(ex[k].begin + j * ex[k].tsize);
+                                stamp_snaps.push_back({p, p->value, p->stamp});
+                            }
+                }
+            }
+    }
+    void check_stamp_snaps(const Op& op)
+    {
+        for (auto& sn : stamp_snaps)
+            if (sn.p->value != sn.value)
+            {
+                VF_REQUIRE(sn.p->stamp > stamp_t0, "assignment_operator_bypassed",
+                           std::string(kind_name(op.kind)) + " changed the value of an object with a user-provided assignment operator from " + std::to_string(sn.value) + " to " +
+                               std::to_string(sn.p->value) + " without calling it (stamp " + std::to_string(sn.p->stamp) + ", clock before the operation " + std::to_string(stamp_t0) + "): its bytes were copied");
+                nt_flag = true;
+            }
     }
 
     void step(const Op& op)
@@ -1468,6 +1528,8 @@ class Runner
         constructed_this_op = false;
         const bool want_snap = (prop == 10 || prop == 16);
         if (want_snap) take_snaps();
+        const bool want_stamps = LI::ANY_STAMPED && (prop == 11 || prop == 12) && assigns_through_references(op.kind);
+        if (want_stamps) take_stamp_snaps();
         std::array<std::size_t, NSLOT> upto;
         upto.fill(~std::size_t{0});
         std::array<bool, NSLOT> same;
@@ -1550,6 +1612,7 @@ class Runner
                 }
                 break;
         }
+        if (want_stamps && !constructed_this_op && !bad()) check_stamp_snaps(op);
         if (!bad()) after_op(op);
     }
 
